@@ -116,11 +116,17 @@ class ObservedCompiler(Compiler):  # noqa: D101
                     compiled_net.add_edge(link_parent, obs_node, **source_net[parent][node].copy())
 
         # Check that there are no stochastic nodes in the ancestors
-        for node in uses_observed:
+        # Observed copies whose data is given do not depend on their parents
+        given = {observed_name(node) for node in compiled_net.graph.get('observed', {})}
+        dep_net = nx.restricted_view(
+            compiled_net, [], [(u, v) for u, v in compiled_net.edges if v in given])
+        for node in observable + uses_observed:
             # Use the observed version to query observed ancestors in the compiled_net
             obs_node = observed_name(node)
-            for ancestor_node in nx.ancestors(compiled_net, obs_node):
-                if '_stochastic' in source_net.nodes.get(ancestor_node, {}):
+            for ancestor_node in nx.ancestors(dep_net, obs_node):
+                if not source_net.has_node(ancestor_node):
+                    continue
+                if '_stochastic' in source_net.nodes[ancestor_node]['attr_dict']:
                     raise ValueError("Observed nodes must be deterministic. Observed "
                                      "data depends on a non-deterministic node {}."
                                      .format(ancestor_node))
